@@ -1520,6 +1520,18 @@ std::string Generator::GeneratorImpl::generateCode(const AnalyserEquationAstPtr 
                 code = mProfile->commonLogarithmString() + "(" + generateCode(astRightChild) + ")";
             } else {
                 code = mProfile->naturalLogarithmString() + "(" + generateCode(astRightChild) + ")/" + mProfile->naturalLogarithmString() + "(" + stringValue + ")";
+
+                // This is a quotient: as a divisor, as the degree of a root or as an operand of a power operator, it needs to
+                // be kept together.
+
+                auto astParent = ast->parent();
+
+                if ((astParent != nullptr)
+                    && (((astParent->type() == AnalyserEquationAst::Type::DIVIDE) && (astParent->rightChild() == ast))
+                        || (astParent->type() == AnalyserEquationAst::Type::DEGREE)
+                        || ((astParent->type() == AnalyserEquationAst::Type::POWER) && mProfile->hasPowerOperator()))) {
+                    code = "(" + code + ")";
+                }
             }
         } else {
             code = generateOneParameterFunctionCode(mProfile->commonLogarithmString(), ast);
